@@ -197,6 +197,29 @@ def falsifier(ctx, ncases):
     return nviol
 
 
+def pinned_mixed_pairs(ctx):
+    """OUTPUT SAMPLES after soxr_clear for mixed datatype pairs, on every run (not left to the random draw): the job after one
+    and after two clears must print the H line (per-channel output hashes, counts, clips, delay) of the fresh-process run.
+    A datatype full-scale factor applied again on re-initialisation, or a gain / rounding state surviving the clear, shows here."""
+    exe = cl.exe_history()
+    n = 0
+    for it, ot in [(3, 0), (0, 3), (2, 1), (3, 2), (1, 7), (6, 3), (0, 0)]:
+        for extra in ["recipe=4 ir=1 or=2", "recipe=1 ir=3 or=2 scale=0.5", "recipe=4 qflags=32 ir=2 or=1"]:
+            cfg = "%s ch=2 itype=%d otype=%d ioflags=8 amp=0.7 sigseed=5 threads=1" % (extra, it, ot)
+            job = ["X limit 3000", "X feed 1000 700 0", "X feed 2000 5000 1", "X drain 500", "X hash"]
+            fresh = ["new X " + cfg] + job
+            once = ["new X " + cfg, "X limit 900", "X feed 900 300 0", "X clear"] + job
+            twice = ["new X " + cfg, "X limit 900", "X feed 900 300 0", "X clear", "X limit 100", "X oneshot 100 400", "X clear"] + job
+            h0 = hline(run_history(exe, fresh)[1])
+            for label, lines in (("after one clear", once), ("after two clears", twice)):
+                h = hline(run_history(exe, lines)[1])
+                n += 1
+                if h0 is None or h != h0:
+                    ctx.violation("output after soxr_clear differs from a fresh resampler (datatypes %d -> %d, %s):\n %s\n %s" % (it & 3, ot & 3, label, h, h0),
+                                  {"harness": "chan/history.c", "stdin": lines, "reference_stdin": fresh})
+    ctx.cov["pinned_mixed_datatype_clear_runs"] = n
+
+
 def replay_F6(ctx):
     exe = cl.exe_history()
     job = ["X oneshot 2000 5000", "X hash"]
@@ -351,6 +374,7 @@ def run(ctx):
     else:
         broken.append("driver soxr_chan was not built")
     nviol = falsifier(ctx, 80 if ctx.quick else 2500)
+    pinned_mixed_pairs(ctx)
     replay_F6(ctx)
     replay_F18(ctx)
     if mismatch:
